@@ -187,8 +187,8 @@ func writeEvidence(tier string, seed uint64, digest string, info map[string]inte
 		unc = append(unc, u.Kind+"@"+u.Pos)
 	}
 	detNote := "passed"
-	if len(det.resultMismatch) > 0 {
-		detNote = fmt.Sprintf("%d result mismatches (reported as violations)", len(det.resultMismatch))
+	if det.procDependent > 0 {
+		detNote = fmt.Sprintf("schedules identical; %d run(s) whose outcome differs between processes under one schedule (depends on the process, not on the interleaving: noted, not a violation)", det.procDependent)
 	}
 	ev := map[string]interface{}{
 		"property_id": "C19", "tier": tier, "seed": seed, "level": "exploration",
